@@ -90,6 +90,28 @@ def main(ctx):
             ctx.violation(dict(sig, loop=True),
                           f'{site} {cls} {n}: exception reached the event '
                           f'loop: {r["loop_exceptions"][0]}', replay=rep)
+    # ---- channel sizes announced by the peer x what its identity makes
+    # the endpoint derive from them ----
+    from harness.drivers import chan_raw
+    sizes = cases(ctx, 'sizes', invariants=('Emit', 'SizeProgress'))
+    cases(ctx, 'sizes_truthy', invariants=('SizeProgress',),
+          expect='SizeProgress')
+    ctx.require(len(sizes) == 2 * 4 * 4, f'size cases: {len(sizes)}')
+    val = {'0': 0, '1': 1, '2': 2, 'max': 0xffffffff}
+    for quirk, wc, pc in sizes:
+        for case, bad in chan_raw.extreme_size_cases_one(quirk, val[wc],
+                                                        val[pc]):
+            ctx.count(('sizes', quirk, wc, pc),
+                      nontrivial=True)
+            mine = [b for b in bad if 'C10' in b.split(' ')[0]]
+            if mine:
+                ctx.violation({'module': 'Sizes', 'quirk': quirk,
+                               'window': wc, 'pktsize': pc},
+                              f'peer {quirk} announcing window {val[wc]} and '
+                              f'maximum packet size {val[pc]}: '
+                              + '; '.join(mine[:2]),
+                              replay={'kind': 'sizes', 'quirk': quirk,
+                                      'window': val[wc], 'pktsize': val[pc]})
     # ---- messages ----
     H.FIELDS.update(fields_of_spec())
     for name, (_, _, vals) in H.TEMPLATES.items():
